@@ -47,6 +47,8 @@ var verifC03FilterSrc = []string{
 	"select id from a where k < @x and exists (select 1 from a as z where k >= @y)",       // 17: the inner, unqualified k is z's, although the outer k was just evaluated
 	"select id from a where id >= 0 and id in (select id from a as z where k >= @x)",      // 18
 	"select id, (select count(*) from a as z where k = a.k) from a where k = k",           // 19
+	"select id from a where k not between (select z.k from a as z where 1 = 0) and @x",    // 20: the lower bound is NULL (a subquery without a row)
+	"select id from a where not (k between @x and (select max(z.k) from a as z where 1 = 0))", // 21: the upper bound is NULL
 }
 
 var verifC03Joins, verifC03Filters []parser.SelectQuery
@@ -285,6 +287,19 @@ func VerifC03FilterProject() {
 		}
 		for i := 0; i < n; i++ {
 			if empty || lt(ks[i], x) {
+				want = append(want, i)
+			}
+		}
+	case 20:
+		// NOT (NULL <= k AND k <= x): TRUE exactly when k <= x is FALSE
+		for i := 0; i < n; i++ {
+			if !ks[i].null && ks[i].v > x {
+				want = append(want, i)
+			}
+		}
+	case 21:
+		for i := 0; i < n; i++ {
+			if lt(ks[i], x) {
 				want = append(want, i)
 			}
 		}
